@@ -16,8 +16,12 @@
        that answers undecodable entries itself and hands the others to a bounded worker pool whose
        tasks finish in any order.
 
-   TLC checks that (2) refines (1) for every input over the member alphabet.  The two places where
-   the code as it is does NOT are boolean switches (DESIGN 4.7: FALSE = the code, TRUE = repaired):
+   TLC checks that (2) refines (1) for every input over the member alphabet.  The three places
+   where the code of the pinned commit did NOT are boolean switches (DESIGN 4.7: FALSE = the
+   defective behaviour, TRUE = repaired).  FixNotif and FixLongWs were repaired in /repo by
+   "fix:" commits (so the cfgs of the code as it is now set them TRUE; JsonRpc_h8.cfg / _h8c.cfg
+   keep the pre-fix model as expected-violation runs); FixNonRequest is a known finding (the
+   repository's own tests pin the behaviour) and stays FALSE:
 
      FixNotif       a notification (valid Request object without id) whose method is unknown or
                     whose params do not fit IS answered (-32601 / -32602 with a null id), also inside
